@@ -118,57 +118,83 @@ theorem substLoop_sig (round : Tr → Tr → Step) (hst : ∀ c p, Stable (round
     (fuel : Nat) (current : Tr) (s : St) : sig (substLoop round fuel current s).2 = [] :=
   sig_eq_nil_of_noLife (substLoop_quiet round hst hnl fuel current s).2
 
-/-- **request processing** (`processRequest` + `processTransitions`): with
-    `cur` = the last request that survived its guards (Q1: duplicate suppression happens inside
-    `applyRequest`), the step applies exactly `cur`. -/
+/-- `applySurvivor`: nothing when no request survived, otherwise exactly the change to its destination -/
+theorem applySurvivor_spec (env : Env) (cur : Tr) (s : St) :
+    (cur.valid = false → applySurvivor env cur s = (s, [])) ∧
+    (cur.valid = true →
+      (applySurvivor env cur s).1.core.active = cur.dest ∧
+      sig (applySurvivor env cur s).2 =
+        if cur.dest != s.core.active then [(Method.exit, s.core.active), (Method.enter, cur.dest)]
+        else [(Method.reenter, s.core.active)]) := by
+  unfold applySurvivor
+  constructor
+  · intro h; simp [h]
+  · intro h
+    simp only [h, if_true, Step.seq, modifyCore]
+    have hspec := changeToRequested_spec env cur { s with core := { s.core with requested := cur.dest } }
+    refine ⟨hspec.1, ?_⟩
+    simp only [sig_append, sig_nil, List.nil_append]
+    exact hspec.2.2
+
+theorem finishProcessing_spec (env : Env) (cur : Tr) (s : St) :
+    (finishProcessing env cur s).1.core.active = s.core.active ∧
+    (finishProcessing env cur s).1.core.requested = 255 ∧
+    (env.cfg.history = true → (finishProcessing env cur s).1.core.prev = cur) ∧
+    (finishProcessing env cur s).2 = [] := by
+  unfold finishProcessing modifyCore
+  exact ⟨rfl, rfl, fun h => by simp [h], rfl⟩
+
+/-- the rounds evaluated by one `processRequest` (ghost) -/
+def processRounds (env : Env) (s : St) : List (Tr × Bool) :=
+  if s.core.request.valid then substRounds (guardRound env) (substFuel env.cfg.L) {} s else []
+
+/-- **request processing** (`processRequest` + `processTransitions`): with `cur` = the last request
+    that survived its guards (Q1: duplicate suppression happens inside `applyRequest`), the step
+    applies exactly `cur`: nothing if there is none, `reenter` if it names the active state,
+    `exit(old); enter(new)` otherwise; the registry's `requested` is cleared and the history records `cur`. -/
 theorem processRequest_spec (env : Env) (s : St) :
-    let rounds := if s.core.request.valid then substRounds (guardRound env) env.cfg.L {} s else []
-    let cur := survivor {} rounds
+    let cur := survivor {} (processRounds env s)
     let r := processRequest env s
-    rounds.length ≤ env.cfg.L ∧
+    (processRounds env s).length ≤ substFuel env.cfg.L ∧
     r.1.core.requested = 255 ∧
     (env.cfg.history = true → r.1.core.prev = cur) ∧
     (cur.valid = false → r.1.core.active = s.core.active ∧ sig r.2 = []) ∧
     (cur.valid = true → r.1.core.active = cur.dest ∧
       sig r.2 = if cur.dest != s.core.active then [(Method.exit, s.core.active), (Method.enter, cur.dest)]
                 else [(Method.reenter, s.core.active)]) := by
-  intro rounds cur r
+  intro cur r
   by_cases hv : s.core.request.valid = true
-  · have hrounds : rounds = substRounds (guardRound env) env.cfg.L {} s := by simp [rounds, hv]
-    have hcur : (substLoop (guardRound env) env.cfg.L {} s).1.2 = cur := by
+  · have hrounds : processRounds env s = substRounds (guardRound env) (substFuel env.cfg.L) {} s := by
+      simp [processRounds, hv]
+    have hcur : (substLoop (guardRound env) (substFuel env.cfg.L) {} s).1.2 = cur := by
       rw [substLoop_current]; simp [cur, hrounds]
-    obtain ⟨hact, hlife⟩ := substLoop_quiet (guardRound env) (stable_guardRound env) (noLife_guardRound env) env.cfg.L {} s
-    have hsig0 : sig (substLoop (guardRound env) env.cfg.L {} s).2 = [] := sig_eq_nil_of_noLife hlife
-    refine ⟨by rw [hrounds]; exact substRounds_length _ _ _ _, ?_⟩
-    cases hcv : cur.valid
-    · have hr : r = ({ (substLoop (guardRound env) env.cfg.L {} s).1.1 with
-          core := { (substLoop (guardRound env) env.cfg.L {} s).1.1.core with requested := 255,
-                    prev := if env.cfg.history then cur else (substLoop (guardRound env) env.cfg.L {} s).1.1.core.prev } },
-          (substLoop (guardRound env) env.cfg.L {} s).2 ++ []) := by
-        simp only [r, processRequest, hv, if_true, hcur, hcv, Bool.false_eq_true, if_false]
-      rw [hr]
-      refine ⟨rfl, fun hh => by simp [hh], fun _ => ⟨hact, by simp [hsig0]⟩, fun h => by cases h⟩
-    · have hspec := changeToRequested_spec env cur
-        ((modifyCore (fun c => { c with requested := cur.dest })) (substLoop (guardRound env) env.cfg.L {} s).1.1).1
-      have hr : r = (let r2 := (modifyCore (fun c => { c with requested := cur.dest }) ⋙ changeToRequested env cur)
-                        (substLoop (guardRound env) env.cfg.L {} s).1.1
-          ({ r2.1 with core := { r2.1.core with requested := 255, prev := if env.cfg.history then cur else r2.1.core.prev } },
-           (substLoop (guardRound env) env.cfg.L {} s).2 ++ r2.2)) := by
-        simp only [r, processRequest, hv, if_true, hcur, hcv]
-      rw [hr]
-      simp only [Step.seq]
-      refine ⟨rfl, fun hh => by simp [hh], fun h => by cases h, fun _ => ⟨hspec.1, ?_⟩⟩
-      rw [sig_append, hsig0, List.nil_append]
-      simp only [modifyCore, sig_append, sig_nil, List.nil_append]
-      rw [hspec.2.2]
-      simp only [modifyCore, hact]
+    obtain ⟨hact, hlife⟩ := substLoop_quiet (guardRound env) (stable_guardRound env) (noLife_guardRound env)
+      (substFuel env.cfg.L) {} s
+    have hsig0 : sig (substLoop (guardRound env) (substFuel env.cfg.L) {} s).2 = [] := sig_eq_nil_of_noLife hlife
+    generalize hS : (substLoop (guardRound env) (substFuel env.cfg.L) {} s) = S at hcur hact hsig0
+    have hr : r = (((applySurvivor env cur ⋙ finishProcessing env cur) S.1.1).1,
+                   S.2 ++ ((applySurvivor env cur ⋙ finishProcessing env cur) S.1.1).2) := by
+      simp only [r, processRequest, hv, if_true, hS, hcur]
+    obtain ⟨ha1, ha2⟩ := applySurvivor_spec env cur S.1.1
+    have hf := finishProcessing_spec env cur (applySurvivor env cur S.1.1).1
+    refine ⟨by rw [hrounds]; exact substRounds_length _ _ _ _, ?_, ?_, ?_, ?_⟩
+    · rw [hr]; simp only [Step.seq]; exact hf.2.1
+    · rw [hr]; simp only [Step.seq]; exact hf.2.2.1
+    · intro hcv
+      rw [hr]; simp only [Step.seq]
+      rw [hf.1, hf.2.2.2, ha1 hcv]
+      exact ⟨hact, by simp [hsig0]⟩
+    · intro hcv
+      rw [hr]; simp only [Step.seq]
+      rw [hf.1, hf.2.2.2]
+      refine ⟨(ha2 hcv).1, ?_⟩
+      rw [sig_append, hsig0, List.nil_append, List.append_nil, (ha2 hcv).2, hact]
   · have hv' : s.core.request.valid = false := by simpa using hv
-    have hrounds : rounds = [] := by simp [rounds, hv']
+    have hrounds : processRounds env s = [] := by simp [processRounds, hv']
     have hcur : cur = {} := by simp [cur, hrounds, survivor]
-    have hr : r = ({ s with core := { s.core with prev := if env.cfg.history then {} else s.core.prev } }, []) := by
-      simp only [r, processRequest, hv', Bool.false_eq_true, if_false]
+    have hr : r = finishProcessing env {} s := by simp only [r, processRequest, hv', Bool.false_eq_true, if_false]
+    have hf := finishProcessing_spec env {} s
     rw [hr, hcur]
-    refine ⟨by simp [hrounds], ?_, fun hh => by simp [hh], fun _ => ⟨rfl, rfl⟩, fun h => by simp [Tr.valid] at h⟩
-    sorry
+    refine ⟨by simp [hrounds], hf.2.1, hf.2.2.1, fun _ => ⟨hf.1, by rw [hf.2.2.2]; rfl⟩, fun h => by simp [Tr.valid] at h⟩
 
 end FFSM2
